@@ -104,8 +104,8 @@ type profile struct {
 }
 
 var profiles = []profile{
-	{"delays-in-flush", "flush-after-wal-switch=sleep(40,60);flush-after-index-flush=sleep(20,40);flush-after-commit=sleep(40,60);flush-before-snapshot-release=sleep(40,60)", nil},
-	{"delays-in-replace", "replace-after-log=sleep(30,60);replace-after-rename=sleep(40,60);replace-after-delete-old=sleep(40,60);flush-after-commit=sleep(10,30)", nil},
+	{"delays-in-flush", "cursor-before-clone-readers=sleep(15,30);flush-after-wal-switch=sleep(40,60);flush-after-index-flush=sleep(20,40);flush-after-commit=sleep(40,60);flush-before-snapshot-release=sleep(40,60)", nil},
+	{"delays-in-replace", "cursor-before-clone-readers=sleep(15,30);replace-after-log=sleep(30,60);replace-after-rename=sleep(40,60);replace-after-delete-old=sleep(40,60);flush-after-commit=sleep(10,30)", nil},
 	{"no-delays", "", nil},
 	{"delays-small-segments", "flush-after-wal-switch=sleep(30,50);replace-after-rename=sleep(30,50);flush-before-snapshot-release=sleep(30,50)", map[string][]string{"data": {"max-rows-per-segment = 8"}}},
 }
